@@ -5,8 +5,10 @@ package main
 // delivered, and a well-formed message afterwards must still get through (the sentinel).
 
 import (
+	"bytes"
 	"encoding/binary"
 	"fmt"
+	"go.nanomsg.org/mangos/v3/protocol/sub"
 	"time"
 
 	"go.nanomsg.org/mangos/v3"
@@ -176,5 +178,61 @@ func protoHostile(c *Ctx) {
 			}
 		}
 		rig.close()
+	}
+}
+
+// SUB: a message shorter than a subscribed topic matches nothing, whatever an earlier message left behind in a recycled
+// buffer, and whatever the topic's length (also longer than the buffer the short message lives in) — "messages too short
+// for the pattern's header … nothing is delivered beyond what a well-formed in-limit message dictates"
+func subShortBodies(c *Ctx) {
+	for _, topic := range [][]byte{[]byte("ABCDEFGH"), bytes.Repeat([]byte{'T'}, 200), bytes.Repeat([]byte{'L'}, 5000)} {
+		proto := sub.NewProtocol()
+		_ = proto.SetOption(mangos.OptionSubscribe, topic)
+		_ = proto.SetOption(mangos.OptionRecvDeadline, 300*time.Millisecond)
+		net := &vp.Net{}
+		p := vp.NewVPipe(0x0000c3d4, proto, net)
+		if p.Attach() != nil {
+			continue
+		}
+		vp.Quiesce()
+		full := append(append([]byte{}, topic...), '!', '1')
+		// matching messages pass through (and their buffers return to the pool with the topic's bytes in them)
+		for i := 0; i < 3; i++ {
+			p.Inject(full)
+			k := vp.GoRecv(proto)
+			if !k.Wait(time.Second) || k.Err != nil || !bytes.Equal(k.Msg.Body, full) {
+				c.Violate(fmt.Sprintf("sub: a message beginning with the %d-byte subscribed topic was not delivered", len(topic)), nil)
+				break
+			}
+			k.Msg.Free()
+		}
+		for cut := 0; cut < len(topic); cut += 1 + len(topic)/7 {
+			short := append([]byte{}, topic[:cut]...)
+			p.Inject(short)
+			vp.Quiesce()
+			p.Inject(full) // the sentinel that must be the next thing received
+			k := vp.GoRecv(proto)
+			ok := k.Wait(time.Second) && k.Err == nil
+			obs := "none"
+			if ok {
+				obs = vp.Hex(k.Msg.Body)
+				if len(obs) > 40 {
+					obs = obs[:40]
+				}
+			}
+			class := fmt.Sprintf("sub short-body topic=%d cut=%d", len(topic), cut)
+			c.Class(class, true)
+			if !ok || !bytes.Equal(k.Msg.Body, full) {
+				c.Violate(fmt.Sprintf("sub: subscribed to a %d-byte topic, a %d-byte message (a proper prefix of the topic) arrived: the next Recv returned %s instead of the matching message that followed", len(topic), cut, obs),
+					map[string]interface{}{"topic_len": len(topic), "body": vp.Hex(short)})
+				if ok {
+					k.Msg.Free()
+				}
+				break
+			}
+			k.Msg.Free()
+		}
+		_ = proto.Close()
+		_ = p.Close()
 	}
 }
